@@ -61,10 +61,15 @@ pub fn parse_args(toks: &[&str]) -> Result<Vec<Arg>, String> {
 pub trait Lab: ArrayElement {
     fn from_lab(x: i128) -> Self;
     fn to_lab(&self) -> String;
+    /// the harness's own conversion of a double to the element type (truncation toward zero, saturation at the
+    /// bounds, NaN -> 0: what the documented `value as T` does) — NOT the library's `N::from` (seeded change C04m
+    /// made that one wrap around through i64)
+    fn cast_ref(v: f64) -> Self;
 }
 macro_rules! lab_int { ($($t:ty),*) => { $(impl Lab for $t {
     fn from_lab(x: i128) -> Self { x as $t }
     fn to_lab(&self) -> String { format!("{self}") }
+    fn cast_ref(v: f64) -> Self { v as $t }
 })* } }
 lab_int!(i8, i16, i32, i64, u8, u16, u32, u64, isize, usize);
 
@@ -76,6 +81,7 @@ pub const POOL: [f64; 34] = [0.0, -0.0, 1.0, -1.0, 2.0, 0.5, -2.5, 3.0, 1e300, -
     9223372036854775808.0, 1180591621816922931200.0, 18446744073710600192.0, 1267650600228229401496703205376.0];
 impl Lab for f64 {
     fn from_lab(x: i128) -> Self { x as f64 }
+    fn cast_ref(v: f64) -> Self { v }
     fn to_lab(&self) -> String {
         if self.is_nan() { "nan".into() }
         else if self.fract() == 0.0 && self.abs() < 1e15 && !(*self == 0.0 && self.is_sign_negative()) { format!("{}", *self as i64) }
@@ -84,6 +90,7 @@ impl Lab for f64 {
 }
 impl Lab for f32 {
     fn from_lab(x: i128) -> Self { x as f32 }
+    fn cast_ref(v: f64) -> Self { v as f32 }
     fn to_lab(&self) -> String {
         if self.is_nan() { "nan".into() }
         else if self.fract() == 0.0 && self.abs() < 1e7 && !(*self == 0.0 && self.is_sign_negative()) { format!("{}", *self as i64) }
@@ -92,10 +99,12 @@ impl Lab for f32 {
 }
 impl Lab for String {
     fn from_lab(x: i128) -> Self { format!("{x}") }
+    fn cast_ref(v: f64) -> Self { format!("{v}") }
     fn to_lab(&self) -> String { self.clone() }
 }
 impl Lab for bool {
     fn from_lab(x: i128) -> Self { x != 0 }
+    fn cast_ref(v: f64) -> Self { v != 0.0 }
     fn to_lab(&self) -> String { if *self { "1".into() } else { "0".into() } }
 }
 
